@@ -148,6 +148,8 @@ def simulate_and_replay(run, num, depth, owner_label="C04"):
         run._distinct.add("b" + str(hash(json.dumps(h, sort_keys=True))))
         for ev in h:
             kinds[ev["a"]] = kinds.get(ev["a"], 0) + 1
+        if not bad:
+            run.traces_validated += 1
         for b in bad:
             ev = b["event"]
             run.violation(f"client loop replay: {b['why']} at {ev['a']} allowed={'|'.join(sorted(ev.get('allowed', [])))} observed={b.get('observed')}",
